@@ -8,3 +8,4 @@ import Woodpile.Props.C07
 import Woodpile.Proofs.IovecInv
 import Woodpile.Proofs.IovecAbs
 import Woodpile.Props.C03
+import Woodpile.Props.C04
